@@ -46,7 +46,7 @@ Find(g, i, k, shape, fuel) ==
        IF Len(ts) > 0 THEN <<ts[1]>> ELSE Find(g, i, k + 1, shape, fuel - 1)
 Inputs1 == FlattenSeq([i \in 1..6 |-> Find("G1", i - 1, 1, 0, 12)])
 Inputs2 == FlattenSeq([i \in 1..6 |-> FlattenSeq([sh \in 1..(IF Thorough THEN 4 ELSE 2) |->
-              Find("G2", i - 1, 1, IF i = 6 THEN sh - 1 ELSE (sh - 1) * 3, 12)])])
+              Find("G2", i - 1, 1, IF Thorough \/ i = 6 THEN sh - 1 ELSE (sh - 1) * 3, 12)])])
 (* inputs whose SWU denominator x_den = -A' N is 1 or -1 (the Jacobian image has Z = +-1 without   *)
 (* having been normalised), and N = +-1                                                              *)
 SpecialN(g) == LET ia == KInv0(g, EpA(g)) IN << KNeg(g, ia), ia, KOne(g), KNeg(g, KOne(g)) >>
@@ -93,6 +93,6 @@ Ops(g, ts) == FlattenSeq([i \in 1..Len(ts) |->
    \o (IF i % 3 = 1 THEN << [op |-> "map", g |-> g, u |-> ts[i], cls |-> "intermediate-stored-sparse"] >> ELSE <<>>)])
 ASSUME ndJsonSerialize(OutDir \o "/swu-g1-nsparse-100.script.ndjson", Ops("G1", Inputs1))
 ASSUME ndJsonSerialize(OutDir \o "/swu-g2-nsparse-100.script.ndjson", Ops("G2", Inputs2))
-ASSUME Len(Special1) = 0 \/ ndJsonSerialize(OutDir \o "/swu-g1-unitden-100.script.ndjson", SpecialOps("G1", Special1))
-ASSUME Len(Special2) = 0 \/ ndJsonSerialize(OutDir \o "/swu-g2-unitden-100.script.ndjson", SpecialOps("G2", Special2))
+ASSUME Len(Special1) = 0 \/ ndJsonSerialize(OutDir \o "/unitden-g1-100.script.ndjson", SpecialOps("G1", Special1))
+ASSUME Len(Special2) = 0 \/ ndJsonSerialize(OutDir \o "/unitden-g2-100.script.ndjson", SpecialOps("G2", Special2))
 =============================================================================
